@@ -15,7 +15,7 @@ import (
 // passed as an argument) outside init functions and initialisers, and the import lists.
 func genGlobals(repo, out string) {
 	pkgs := []string{".", "nasMessage", "nasType", "nasConvert", "security", "security/snow3g", "security/zuc", "uePolicyContainer", "logger"}
-	var vars, uses, imps []string
+	var vars, uses, imps, varFiles, useFiles []string
 	// first pass: names of package-level variables per package (for cross-package references pkg.Var)
 	varNames := map[string]map[string]bool{}
 	for _, p := range pkgs {
@@ -39,7 +39,14 @@ func genGlobals(repo, out string) {
 	}
 	for _, p := range pkgs {
 		dir := filepath.Join(repo, p)
-		_, files, info := loadPkg(dir, nil)
+		fset, files, info := loadPkg(dir, nil)
+		relFile := func(pos token.Pos) string { // path relative to the repository root, as the property anchors name files
+			n := filepath.Base(fset.Position(pos).Filename)
+			if p == "." {
+				return n
+			}
+			return p + "/" + n
+		}
 		pname := p
 		if p == "." {
 			pname = "nas"
@@ -65,6 +72,7 @@ func genGlobals(repo, out string) {
 								t = obj.Type().String()
 							}
 							vars = append(vars, fmt.Sprintf("  (%s, %s, %s)", q(pname), q(n.Name), q(t)))
+							varFiles = append(varFiles, fmt.Sprintf("  (%s, %s, %s)", q(pname), q(n.Name), q(relFile(n.Pos()))))
 						}
 					}
 				}
@@ -122,6 +130,7 @@ func genGlobals(repo, out string) {
 				fn := fd.Name.Name
 				add := func(v, kind string) {
 					uses = append(uses, fmt.Sprintf("  (%s, %s, %s, %s)", q(pname), q(v), q(fn), kind))
+					useFiles = append(useFiles, fmt.Sprintf("  (%s, %s, %s, %s)", q(pname), q(v), q(relFile(fd.Pos())), kind))
 				}
 				ast.Inspect(fd.Body, func(n ast.Node) bool {
 					switch x := n.(type) {
@@ -180,6 +189,8 @@ func genGlobals(repo, out string) {
 	sort.Strings(vars)
 	sort.Strings(uses)
 	sort.Strings(imps)
+	sort.Strings(varFiles)
+	sort.Strings(useFiles)
 	uniq := func(l []string) []string {
 		var o []string
 		for i, x := range l {
@@ -194,6 +205,9 @@ func genGlobals(repo, out string) {
 	sb.WriteString("From NV Require Import Lib.Base C19.Types.\nFrom Coq Require Import String.\n\n")
 	sb.WriteString("Definition package_vars : list (string * string * string) :=\n" + coqList(uniq(vars), ";\n") + ".\n\n")
 	sb.WriteString("Definition global_uses : list (string * string * string * use_kind) :=\n" + coqList(uniq(uses), ";\n") + ".\n\n")
-	sb.WriteString("Definition package_imports : list (string * string) :=\n" + coqList(uniq(imps), ";\n") + ".\n")
+	sb.WriteString("Definition package_imports : list (string * string) :=\n" + coqList(uniq(imps), ";\n") + ".\n\n")
+	sb.WriteString("(* (package, variable, file that declares it) and (package, variable, file of the use, kind) *)\n")
+	sb.WriteString("Definition package_var_files : list (string * string * string) :=\n" + coqList(uniq(varFiles), ";\n") + ".\n\n")
+	sb.WriteString("Definition global_use_files : list (string * string * string * use_kind) :=\n" + coqList(uniq(useFiles), ";\n") + ".\n")
 	writeIfChanged(filepath.Join(out, "GenGlobals.v"), sb.String())
 }
